@@ -18,8 +18,11 @@ RULE = ('forward: for all 256 exponent pairs (K1, K2 in -8..7) x the formats uns
         'converted back, plus seeded free values (negative, fractional, out of range, M = 0, non-linear).  The real '
         'code is compared with the Lean model (tie) and with Spec.Sensor / the round-trip law (property).  A case is '
         'distinct by (direction, fmt, lin, M, B, K1, K2, raw or value) and non-trivial when M*x or B is non-zero.  '
-        'thorough: additionally every (M, B) in [-512, 511]^2 at K1 = K2 = 0 and on a stride at three other exponent '
-        'pairs, formats cycling, eight boundary raws each (time-guarded).')
+        'thorough: additionally the FULL product boundary M (15) x boundary B (16) x all 256 (K1, K2) x 3 formats '
+        '(184 320 records) on 8 boundary + 8 seeded random raws each, forward and inverse (the quick exponent grid '
+        'takes one (M, B) per (K1, K2, format)); every (M, B) in [-512, 511]^2 at K1 = K2 = 0 and on a stride at '
+        'three other exponent pairs, formats cycling, eight boundary raws each (all time-guarded; evidence '
+        'exponent_product / exhaustive_MB_K0 say how far they got).')
 ASSUMPTIONS = [
     'IEEE-754 double rounding of the Python arithmetic is modelled, not verified: the Lean model is exact (Rat); the '
     'forward argument is accepted when |python - exact| <= 2^-40 * (|M*x| + |B|*10^K1) * 10^K2 (condition-aware bound, '
@@ -582,9 +585,39 @@ def run(ctx):
     assert SdrFullSensorRecord is not None
 
 
+def _exponent_product(ctx, run_, rng):
+    """The FULL product the quantifier names at the boundary values: every (K1, K2) in -8..7 x every boundary M x
+    every boundary B x the three formats (184 320 records), each on the 8 boundary raws + 8 seeded random raws
+    (forward, and the inverse of every linear M != 0 value).  The quick tier's exponent grid takes ONE (M, B) per
+    (K1, K2, format); the theorems cover the product algebraically, this covers it for the doubles of the real
+    code.  Exponent pairs with an extreme component first, so that a cut by the time budget loses the middle."""
+    bnd = [0, 1, 2, 127, 128, 129, 254, 255]
+    pairs = [(k1, k2) for k1 in range(-8, 8) for k2 in range(-8, 8)]
+    rng.shuffle(pairs)
+    pairs.sort(key=lambda p: 0 if (p[0] in (-8, 7) or p[1] in (-8, 7)) else 1)
+    total = len(pairs) * len(BOUNDARY_M) * len(BOUNDARY_B) * 3
+    done = pairs_done = 0
+    for k1, k2 in pairs:
+        if ctx.time_left() < 420:
+            break
+        raws = bnd + sorted(rng.sample([x for x in range(256) if x not in bnd], 8))
+        batch = [(fmt, 0, m, b, k1, k2) for m in BOUNDARY_M for b in BOUNDARY_B for fmt in (0, 1, 2)]
+        run_.forward_batch(batch, raws=raws, label='exponent-product')
+        done += len(batch)
+        pairs_done += 1
+    ctx.extra['exponent_product'] = {'records_done': done, 'records_total': total, 'exponent_pairs_done': pairs_done,
+                                     'exponent_pairs_total': len(pairs), 'boundary_M': len(BOUNDARY_M),
+                                     'boundary_B': len(BOUNDARY_B), 'formats': 3, 'raws_per_record': 16}
+    if done < total:
+        ctx.notes.append('thorough: boundary (M, B) x exponent product cut by the time budget after %d of %d exponent '
+                         'pairs (%d of %d records)' % (pairs_done, len(pairs), done, total))
+
+
 def _thorough(ctx, run_, rng):
-    """Every (M, B) in [-512, 511]^2 at K1 = K2 = 0, formats cycling, eight boundary raws;
-    then a stride through (M, B) at three other exponent pairs.  Time-guarded."""
+    """The full boundary product over all exponent pairs (_exponent_product); every (M, B) in [-512, 511]^2 at
+    K1 = K2 = 0, formats cycling, eight boundary raws; then a stride through (M, B) at three other exponent
+    pairs.  Time-guarded."""
+    _exponent_product(ctx, run_, ctx.rng('c17-exponent-product'))
     raws = [0, 1, 2, 127, 128, 129, 254, 255]
     done = 0
     total = 1024 * 1024
